@@ -77,3 +77,28 @@ class Timer:
 
     def s(self):
         return round(time.time() - self.t0, 3)
+
+
+class WorkerTimeout(Exception):
+    pass
+
+
+class time_limit:
+    """raise WorkerTimeout inside a worker that does not finish (e.g. a non-terminating loop in the
+    code under test); reported as a disagreement, never a hang of the check"""
+    def __init__(self, seconds):
+        self.seconds = seconds
+
+    def __enter__(self):
+        import signal
+
+        def handler(signum, frame):
+            raise WorkerTimeout("no result within %d s" % self.seconds)
+        self.old = signal.signal(signal.SIGALRM, handler)
+        signal.alarm(self.seconds)
+
+    def __exit__(self, *a):
+        import signal
+        signal.alarm(0)
+        signal.signal(signal.SIGALRM, self.old)
+        return False
